@@ -15,14 +15,14 @@ from .. import observe as ob
 from .c07 import corrupt
 
 PROP = "C08"
-RUNS = {"quick": 5000, "thorough": 90000}
+RUNS = {"quick": 4000, "thorough": 90000}
 WALL = {"quick": 280, "thorough": 3500}
 RULE = ("one run = document + scheduled delivery + history with failing calls; full observation "
         "compared around every call that raised; distinct = distinct (state digest, failing op) pairs")
 PROBES = ["failed_call", "failed_in_a_row", "failed_with_placeholder", "failed_version_undecided",
           "failed_obj_add", "legal_after_failure"]
 # process_line_queue ('flush') is not one of the calls C08 names (add, rename, remove, edit a field)
-MUTATING = ("add", "rm", "rename", "set_tag", "del_tag", "set_field", "readd_connected", "set_datatype", "header_add", "held_call", "grp_edit", "add_many")
+MUTATING = ("flush", "add", "rm", "rename", "set_tag", "del_tag", "set_field", "readd_connected", "set_datatype", "header_add", "held_call", "grp_edit", "add_many")
 
 
 def gen(streams, tier, i):
@@ -85,6 +85,7 @@ def run(scn, st):
             w.apply(op)
             continue
         pre = ob.observe(w.gfa)
+        pre_dt = declared_datatypes(w.gfa)
         rts = _rts(w, op)
         has_ph = any(e["virtual"] for e in pre["graph"].values())
         undecided = pre["version"] is None
@@ -107,6 +108,12 @@ def run(scn, st):
         post = ob.observe(w.gfa)
         st.count("oracle.unchanged_after_failure")
         st.state(digest([digest(pre), op["op"], out.excname]))
+        post_dt = declared_datatypes(w.gfa)
+        if pre == post and pre_dt != post_dt:
+            d = [(k, pre_dt.get(k), post_dt.get(k)) for k in sorted(set(pre_dt) | set(post_dt)) if pre_dt.get(k) != post_dt.get(k)]
+            raise core.Violation("changed-after-failure",
+                                 "step %d %r raised %s but the declared tag datatypes changed: %r" % (n, op, out.excname, d[:3]),
+                                 op=op["op"], rts=rts, exc=out.excname, frame=out.frame, what="datatypes")
         if pre != post:
             raise core.Violation("changed-after-failure",
                                  "step %d %r raised %s but the Gfa changed: %s" %
@@ -134,6 +141,20 @@ def run(scn, st):
                 raise core.Violation("rejected-line-changed",
                                      "step %d: rejected line %r now writes as %r" % (n, op["line"], ob.line_text(lo)),
                                      op="add", rts=rts, exc=out.excname, frame=out.frame)
+
+
+def declared_datatypes(gfa):
+    """line key -> the datatypes the line has on record for its tags (what get_datatype answers), header included"""
+    out = {}
+    try:
+        lines = list(ob.reachable_lines(gfa)) + [gfa.header]
+        keys = ob.make_keys(gfa, lines)
+        for l in lines:
+            out[keys.get(id(l), "H")] = sorted((t, str(d)) for t, d in l._datatype.items()
+                                               if t not in l.positional_fieldnames)
+    except Exception as e:
+        out["<unreadable>"] = type(e).__name__
+    return out
 
 
 def diff_kind(a, b):
